@@ -232,7 +232,8 @@ NameR = RefS('MailboxName')
 SFlags = SessS
 SEL = RecS('SelectedMailbox', pyclass=(F, 'SelectedMailbox'), _hide_expunged=BOOL, _messages=SM,
            _session_flags=SessS, _silenced_flags=SetS(FK), _silenced_sflags=SetS(FK),
-           _readonly=BOOL, _mailbox_id=Oid, _lookup=NameR, _permanent_flags=PermS, _is_deleted=BOOL)
+           _readonly=BOOL, _mailbox_id=Oid, _lookup=NameR, _permanent_flags=PermS, _is_deleted=BOOL,
+           _mod_sequence=OptS(INT))
 
 
 def frozen_ri(f):
